@@ -115,7 +115,7 @@ Proof.
                                      end
                          end
              end)).
-  { intros setf k ovd Hs. rewrite !Hs, Hb, !fb_init_none_f. cbn [ctor_fails].
+  { intros setf k ovd Hs. rewrite !Hs, Hb, !(fb_init_none_f flt), (fb_init_none_f FNone). cbn [ctor_fails].
     destruct (ctor_fails flt k).
     - left. now rewrite <- Hb, obuf_eta.
     - rewrite fb_init_none. cbn [ob_strbuf ob_overflowed].
@@ -142,7 +142,7 @@ Proof.
   destruct (append_tail_spec ovf s o b Hi Hb) as (on & Hn1 & Hn2 & _).
   pose proof Hi as Hi0. inv_some Hi Hb.
   destruct (fb_append_spec b s Hfb) as (b' & Ha & Hi' & Habs & Hk' & Hp & Hc & Hr).
-  unfold o_append_tail in *. cbn [is_append_write] in Hn1.
+  cbv zeta. unfold o_append_tail in *. cbn [is_append_write] in *.
   destruct (is_append_write flt) eqn:Eaw.
   - rewrite fb_append_fails by apply Hfb. cbv zeta. cbn [fst snd]. split; [exact Hi0|].
     left. split; [reflexivity | now left].
